@@ -3,7 +3,7 @@
    well-formed v (wf_* state exactly what the encoder truncates / the decoder rejects), and
    encoders are injective on well-formed values.  Tags and limits are those re-extracted
    from /repo into gen/Generated.v on this run. *)
-From Coq Require Import List NArith ZArith.
+From Coq Require Import List NArith ZArith Permutation.
 From SosModel Require Import base.Bytes gen.Generated model.Formats proofs.Bytes_Lemmas proofs.Formats_Lemmas.
 Import ListNotations.
 
@@ -69,6 +69,25 @@ Proof. exact time_wf_needed_nanos. Qed.
 Theorem C14_wf_needed_refuted_bool : p_bool [2%N] = Some (true, []) /\ e_bool true = [1%N].
 Proof. exact bool_wf_needed. Qed.
 
+(* "encoding is deterministic": a set / map field (a secret's tags, a list secret's items) is written in an
+   order that depends on its contents only (fix 'secret tags and list items are encoded in sorted order') *)
+Theorem C14_set_encoding_canonical (A : Type) (leb : A -> A -> bool) (e : A -> bytes) :
+  (forall a b, leb a b = true \/ leb b a = true) ->
+  (forall a b c, leb a b = true -> leb b c = true -> leb a c = true) ->
+  (forall a b, leb a b = true -> leb b a = true -> a = b) ->
+  forall l l', Permutation l l' -> e_set A leb e l = e_set A leb e l'.
+Proof. exact (set_encoding_canonical A leb e). Qed.
+Theorem C14_tagset_encoding_canonical l l' : Permutation l l' -> e_tagset l = e_tagset l'.
+Proof. exact (tagset_encoding_canonical l l'). Qed.
+(* written in the container's iteration order (before the fix) the same set has two encodings *)
+Theorem C14_iteration_order_encoding_refuted :
+  Permutation [1%N; 2%N] [2%N; 1%N] /\ e_seq N e_u8 [1%N; 2%N] <> e_seq N e_u8 [2%N; 1%N].
+Proof. exact seq_encoding_not_canonical. Qed.
+Example C14_nonvacuous_tagset :
+  e_tagset [[119; 111]%N; [97]%N; [119]%N] = e_tagset [[97]%N; [119]%N; [119; 111]%N] /\
+  e_tagset [[119; 111]%N; [97]%N; [119]%N] = [3; 0; 0; 0; 1; 0; 0; 0; 97; 1; 0; 0; 0; 119; 2; 0; 0; 0; 119; 111]%N.
+Proof. split; reflexivity. Qed.
+
 (* non-vacuity *)
 Theorem C14_nonvacuous_write :
   wf_write_event (WCreateSecret (repeat 7%N 16)
@@ -97,3 +116,6 @@ Print Assumptions C14_wf_needed_refuted_time_nanos.
 Print Assumptions C14_wf_needed_refuted_bool.
 Print Assumptions C14_nonvacuous_write.
 Print Assumptions C14_nonvacuous_record.
+Print Assumptions C14_set_encoding_canonical.
+Print Assumptions C14_tagset_encoding_canonical.
+Print Assumptions C14_iteration_order_encoding_refuted.
